@@ -15,8 +15,8 @@ pub struct C13;
 
 fn n_cases(tier: Tier) -> u64 {
     match tier {
-        Tier::Quick => 4_000,
-        Tier::Thorough => 40_000,
+        Tier::Quick => 20_000,
+        Tier::Thorough => 400_000,
     }
 }
 
